@@ -171,6 +171,9 @@ for (_size, _ns) in GRIDS:
                 g = it.getattr
                 p, q, shift, backshift, eps = (g(mod, k) for k in ('p', 'q', 'shift', 'backshift', 'eps'))
                 xi0 = g(mod, 'xi_0')
+                # the parameters in effect are the caller's (xi_0, p, eps >= 0 incl. the documented boundary value eps = 0: exact minimum)
+                ctx.prove('param.as_given', z3.And(V.zbool(V.cmp('==', p, ctx.sym('p', 'real'))), V.zbool(V.cmp('==', eps, ctx.sym('eps', 'real'))),
+                                                   V.zbool(V.cmp('==', xi0, ctx.sym('xi_0', 'real')))))
                 # parameters of the paper
                 ctx.prove('param.q', V.cmp('==', q, V.add(p, V.div(V.log(ns), V.log(xi0)))))
                 ctx.prove('param.backshift', V.cmp('==', backshift, V.mul(V.mul(V.pw(ns, V.div(1, q)), V.pw(shift, V.div(p, q))), V.div(95, 100))))
